@@ -55,10 +55,12 @@ class Site:
 class Con:
     """One construct of the menu."""
 
-    __slots__ = ("src", "binds", "assigns", "counts", "site", "toks", "is_block", "top_only")
+    __slots__ = ("src", "binds", "assigns", "counts", "site", "toks", "is_block", "top_only", "no_lines")
 
     def __init__(self, src: str, *, binds: tuple[str, ...] = (), assigns: tuple[str, ...] = (),
-                 counts: tuple[str, ...] = (), site: Optional[Site] = None, top_only: bool = False):
+                 counts: tuple[str, ...] = (), site: Optional[Site] = None, top_only: bool = False,
+                 no_lines: bool = False):
+        self.no_lines = no_lines  # cannot be written as `{% liquid %}` line statements (raw, doc, nested comment, translate)
         self.src = src
         self.binds = frozenset(binds)
         self.assigns = tuple(assigns)
@@ -184,6 +186,8 @@ class MultiLine(Layout):
         return expr.replace(" | ", "\n      | ").replace(", ", ",\n      ")
 
     def tag(self, name: str, expr: str, depth: int) -> str:
+        if name == "#":  # every line of an inline comment starts with '#'
+            return "{%-\n  # " + expr.replace(" | ", "\n  # | ") + "\n-%}"
         return "{%-\n  " + name + ("\n    " + self._spread(expr) if expr else "") + "\n-%}"
 
     def out(self, expr: str, depth: int) -> str:
@@ -245,14 +249,19 @@ def _root_of(marked: str) -> Optional[str]:
     return None  # dynamic root: [$x]
 
 
+class Unprintable(Exception):
+    """The program has no rendition in this layout (a lexer-level block inside a line-statement block)."""
+
+
 class _Printer:
     def __init__(self, name: str, layout: Layout):
         self.p = Printed(name)
         self.layout = layout
         self.buf: list[str] = []
         self.pos = 0
+        self.in_comment = 0
 
-    def emit(self, marked: str) -> None:
+    def emit(self, marked: str, markers: bool = False) -> None:
         """Append text, stripping ``$`` (recording a reference) and replacing ``#`` markers."""
         i, n = 0, len(marked)
         start = 0
@@ -263,7 +272,7 @@ class _Printer:
                 rest = marked[i + 1:]
                 self.p.refs[self.pos] = (_root_of(rest), rest[:24])
                 start = i + 1
-            elif ch == "#":
+            elif ch == "#" and markers:
                 self._raw(marked[start:i])
                 mk = f"~{self.p.name}{len(self.p.markers)}~"
                 self.p.markers.append(mk)
@@ -281,14 +290,28 @@ class _Printer:
         lay = self.layout
         for it in items:
             con = it.con
+            lay = self.layout
+            reopen = False
+            if con.no_lines and isinstance(lay, LiquidLines):
+                # leave the enclosing `{% liquid %}` tag, write the construct in ordinary markup, come back
+                if depth != 0:
+                    raise Unprintable(con.src)
+                self._raw("  echo ''\n-%}")
+                lay, reopen = LAYOUTS["plain"], True
             start = self.pos
             opener: Optional[str] = None
             closed: Optional[int] = None
             for tok in con.toks:
                 k = tok[0]
                 if k == "text":
-                    self.emit(lay.text(tok[1], depth))
+                    self.emit(lay.text(tok[1], depth), markers=True)
                 elif k == "tag":
+                    if tok[1] == "comment":
+                        if self.in_comment and isinstance(lay, LiquidLines):
+                            raise Unprintable(con.src)  # line statements have no nested block comments
+                        self.in_comment += 1
+                    elif tok[1] == "endcomment":
+                        self.in_comment -= 1
                     self.emit(lay.tag(tok[1], tok[2], depth))
                     if opener is None:
                         opener = tok[1]
@@ -299,8 +322,12 @@ class _Printer:
                 elif k == "liquid":
                     self.emit(lay.liquid(tok[1], depth))
                 else:
+                    if reopen:
+                        raise Unprintable(con.src)
                     self.program(it.body if it.body is not None else DEFAULT_BODY, depth + 1)
             end = closed if closed is not None else self.pos
+            if reopen:
+                self._raw("{%- liquid\n  echo ''\n")
             if con.binds:
                 self.p.binds.append((start, end, con.binds))
             for nm in con.assigns:
@@ -396,6 +423,24 @@ BLOCKS: list[Con] = [
 
 DEFAULT_BODY: list[Item] = [Item(Con("[{{ $v }}]"))]
 
+# Lexer-level blocks, inner tags and end tags that C19's menus do not contain.  Used by C20 only
+# (shape indices continue after LEAVES / BLOCKS, so C19's corpus is unchanged).
+EXTRA_LEAVES: list[Con] = [
+    Con("{% comment %}a note about {{ this | upcase }}{% endcomment %}{{ $x }}"),
+    Con("{% comment %}outer {% if that %}{% comment %}inner {{ x }}{% endcomment %} tail{% endcomment %}{{ $v | upcase }}",
+        no_lines=True),
+    Con("{% raw %}{{ x | upcase }} {% if %}{% endraw %}{{ $x | downcase }}", no_lines=True),
+    Con("{% doc %}a doc {{ x }} {% endfor %}{% enddoc %}{% assign s = $x %}", assigns=("s",), no_lines=True),
+    Con("{% # inline note x | upcase %}{{ $s | append: $x }}"),
+    Con("{% for v in $a %}{% if $x %}{% break %}{% else %}{% continue %}{% endif %}{{ $v }}{% endfor %}",
+        binds=("v", "forloop")),
+    Con("{% translate count: $x %}one{% plural %}many {{ count }}{% endtranslate %}{{ $y.a }}", no_lines=True),
+]
+EXTRA_BLOCKS: list[Con] = [
+    Con("{% comment %}{B}{% endcomment %}{{ $w | size }}"),
+    Con("{% for v in $a %}{% comment %}c{% endcomment %}{B}{% break %}{% endfor %}", binds=("v", "forloop")),
+]
+
 
 def _I(src: str, body: Optional[list[Item]] = None, **kw: Any) -> Item:
     return Item(Con(src, **kw), body)
@@ -458,7 +503,7 @@ ENV_GLOBALS = {"g": "env-g"}
 def _items_exact(n: int, d: int, L: list[int], B: list[int], top: bool) -> Iterator[Any]:
     if n == 1:
         for i in L:
-            if top or not LEAVES[i].top_only:
+            if top or not leaf_con(i).top_only:
                 yield i
         if d >= 1:
             for j in B:
@@ -489,7 +534,7 @@ def shapes_exact(n: int, d: int, L: Optional[list[int]] = None, B: Optional[list
     L = list(range(len(LEAVES))) if L is None else L
     B = list(range(len(BLOCKS))) if B is None else B
     for sh in _progs_exact(n, d, L, B, True):
-        if sum(1 for it in sh if isinstance(it, int) and LEAVES[it].top_only) > 1:
+        if sum(1 for it in sh if isinstance(it, int) and leaf_con(it).top_only) > 1:
             continue
         yield sh
 
@@ -500,15 +545,43 @@ def shapes(n: int, d: int, L: Optional[list[int]] = None, B: Optional[list[int]]
         yield from shapes_exact(size, d, L, B)
 
 
+def leaf_con(i: int) -> Con:
+    return LEAVES[i] if i < len(LEAVES) else EXTRA_LEAVES[i - len(LEAVES)]
+
+
+def block_con(j: int) -> Con:
+    return BLOCKS[j] if j < len(BLOCKS) else EXTRA_BLOCKS[j - len(BLOCKS)]
+
+
 def build(shape: list[Any]) -> list[Item]:
     out: list[Item] = []
     for it in shape:
         if isinstance(it, int):
-            out.append(Item(LEAVES[it]))
+            out.append(Item(leaf_con(it)))
         else:
             j, body = it
-            out.append(Item(BLOCKS[j], None if body is None else build(body)))
+            out.append(Item(block_con(j), None if body is None else build(body)))
     return out
+
+
+def uses_extra(shape: list[Any]) -> bool:
+    for it in shape:
+        if isinstance(it, int):
+            if it >= len(LEAVES):
+                return True
+        elif it[0] >= len(BLOCKS) or (it[1] is not None and uses_extra(it[1])):
+            return True
+    return False
+
+
+def lexer_shapes(n: int, d: int) -> Iterator[list[Any]]:
+    """Every program of 1..n constructs over LEAVES+EXTRA_LEAVES / BLOCKS+EXTRA_BLOCKS that contains at least
+    one EXTRA construct (comment / raw / doc / inline comment / break / continue / translate)."""
+    L = list(range(len(LEAVES) + len(EXTRA_LEAVES)))
+    B = list(range(len(BLOCKS) + len(EXTRA_BLOCKS)))
+    for sh in shapes(n, d, L, B):
+        if uses_extra(sh):
+            yield sh
 
 
 def size_of(shape: list[Any]) -> int:
